@@ -380,6 +380,28 @@ func main() {
 					}
 				}
 			}
+			// every palette index in every colour channel, entered from the default colour and from
+			// the neighbouring index (each index has its own SGR form: 30-37, 90-97, 38:5:n, ...)
+			for ch := 0; ch < 3; ch++ {
+				mk := func(c vaxis.Color) vaxis.Style {
+					switch ch {
+					case 0:
+						return vaxis.Style{Foreground: c}
+					case 1:
+						return vaxis.Style{Background: c}
+					}
+					return vaxis.Style{UnderlineColor: c, UnderlineStyle: vaxis.UnderlineSingle}
+				}
+				for i := 0; i < 256; i++ {
+					if !mine() {
+						continue
+					}
+					cur := mk(vaxis.IndexColor(uint8(i)))
+					checkSeq([]vaxis.Style{{}, cur}, true)
+					checkSeq([]vaxis.Style{mk(vaxis.IndexColor(uint8((i + 255) % 256))), cur}, true)
+					checkSeq([]vaxis.Style{mk(vaxis.RGBColor(uint8(i), 1, 2)), cur}, true)
+				}
+			}
 			// hyperlinks: outside the round-trip clause, inside the reset-at-end clause
 			links := []vaxis.Style{{}, {Hyperlink: "A"}, {Hyperlink: "A", HyperlinkParams: "id=7"}, {Hyperlink: "B", Attribute: vaxis.AttrBold}}
 			for _, a := range links {
